@@ -27,6 +27,17 @@ pub fn cells(tier: Tier) -> Vec<CellPlan> {
     add(cells::wiring("C01", TickWiring::EveryFrame, 10), 1, 2, 4, 1.0);
     add(cells::wiring("C01", TickWiring::MaxTickRate(50), 10), 1, 2, 4, 1.0);
     add(cells::wiring("C01", TickWiring::MaxTickRate(50), 20), 1, 2, 4, 1.0);
+    // the timer-driven cell under both resolutions of every pair of send-side library systems
+    // whose order the declared constraints leave open
+    {
+        let base = cells::wiring("C01", TickWiring::MaxTickRate(50), 10);
+        for (choice, desc) in order_choices(&base.cfg).into_iter().filter(|(ch, _)| ch.0) {
+            let mut c = base.clone();
+            c.cfg.order_choice = Some(choice);
+            c.name = format!("c01-wiring-max50hz-order[{desc}]");
+            add(c, 0, 1, 4, 0.5);
+        }
+    }
     add(cells::two_clients("C01"), 1, 2, 3, 2.0);
     add(cells::split_lossy("C01"), 2, 3, 4, 2.0);
     add(cells::same_frame("C01"), 1, 2, 3, 2.0);
